@@ -487,7 +487,9 @@ func (p *program) assignCheckerParams() error {
 var generatedFileCommentRE = regexp.MustCompile("Code generated .* DO NOT EDIT.")
 
 func (p *program) isGenerated(f *ast.File) bool {
+	// The generated-code marker is a header: it comes before the package clause.
 	return len(f.Comments) != 0 &&
+		f.Comments[0].End() <= f.Package &&
 		generatedFileCommentRE.MatchString(f.Comments[0].Text())
 }
 
